@@ -15,6 +15,7 @@ L1_LINES = {
     "C04": re.compile(r"^(status|wrapper \S+ (variants|tables)|enum \S+ variants)"),
     "C05": re.compile(r"^(status|enum \S+ table|wrapper \S+ tables)"),
     "C11": re.compile(r"^(status|wrapper \S+ (bridged|variants))"),
+    "C16": re.compile(r"^(status|wrapper \S+ (schema|responses|tables)|variant \S+ attrs|enum \S+ variants)"),
     "C15": re.compile(r"^(status|(enum|struct) \S+ (generics|impl_where|dispatch_generics|type_where))"),
     "C17": re.compile(r"^(status|(enum|struct) \S+ attrs|variant \S+ (attrs|fields)|struct \S+ fields)"),
 }
@@ -68,6 +69,33 @@ def l1_oracle(pid, p, impl_lines, run, desc):
                 want = "%s:%s" % (ms[0].name, ",".join(a.name for a in ms[0].args))
                 if got != want:
                     run.oracle_fail("%s dispatches as `%s`, expected `%s`" % (sn, got, want), desc)
+    if pid == "C16":
+        en = prefix + "QueryMsg"
+        ms = [m for m in p.methods() if m.kind() == "query"]
+        variants = [v for v in d.get("enum %s variants" % en, "").split(",") if v and v != "_Phantom"]
+        for m, v in zip(ms, variants):
+            ma = m.msg_attr()
+            if ma[2] is not None:
+                want = ma[2]
+            elif m.ret.kind == "path" and m.ret.segs[0][1]:
+                want = canon_ty(strip_self_ty(m.ret.segs[0][1][0]).rust())
+            else:
+                continue
+            got = [x for x in d.get("variant %s::%s attrs" % (en, v), "").split(";;") if x.startswith("returns(")]
+            if got != ["returns(%s)" % want]:
+                run.oracle_fail("query `%s` is recorded with %s; its handler returns `%s`" % (m.name, got, want), desc)
+        if is_c:
+            mods = []
+            for a in p.attrs:
+                if a.sv and a.sv[0] == "messages":
+                    mods.append("::".join(a.sv[1]))
+            want = ",".join(mods + ["self"])
+            if d.get("wrapper ContractQueryMsg responses") != "flatten:" + want:
+                run.oracle_fail("the contract-level response table is assembled as `%s`; expected the union of the parts %s" % (
+                    d.get("wrapper ContractQueryMsg responses"), want), desc)
+            for wn in ("ContractExecMsg", "ContractQueryMsg", "ContractSudoMsg"):
+                if d.get("wrapper %s schema" % wn) != "any_of:" + want:
+                    run.oracle_fail("the schema of %s is `%s`; expected any_of over the parts %s" % (wn, d.get("wrapper %s schema" % wn), want), desc)
     if pid == "C15":
         gens = list(p.generics) if is_c else [n for n, _ in p.assoc if n != "Error"]
         for kind, base in (("exec", "ExecMsg"), ("query", "QueryMsg"), ("sudo", "SudoMsg"), ("instantiate", "InstantiateMsg"), ("migrate", "MigrateMsg")):
@@ -202,12 +230,36 @@ def build_corpus(run, rng, thorough):
     crng = random.Random(run.seed * 7919 + (1 if thorough else 0))
     n = 36 if thorough else 14
     progs = [gen.gen_l2_program(crng) for _ in range(n)]
+    progs.append(crafted_generic_program())
     c = corpus.Corpus(progs, tag="msg_%s" % ("t" if thorough else "q")).build()
     rejected = [i for i, nm in enumerate(c.names) if "__rejected" in nm]
     run.dist("l2:programs", len(progs) - len(rejected))
     run.dist("l2:programs_rejected_by_macro", len(rejected))
     run.programs += len(progs) - len(rejected)
     return c
+
+
+def crafted_generic_program():
+    """a generic contract whose own queries use its parameter, with two interfaces whose queries use associated types:
+    every part of the contract-level query is generic"""
+    from ..corpus import L2Prog, L2Iface, L2Method
+    from ..prog import Arg, P, PP
+    p = L2Prog(name="Ctr")
+    p.generics = [("T", P("u32"))]
+    p.methods = [L2Method("init_it", "instantiate", [Arg("seed", P("T"))]),
+                 L2Method("own_q", "query", [Arg("key", P("T")), Arg("n", P("u8"))]),
+                 L2Method("own_q2", "query", [Arg("keys", P("Vec", P("T")))], ret="arg0"),
+                 L2Method("own_e", "exec", [Arg("v", P("Option", P("T")))]),
+                 L2Method("own_s", "sudo", [Arg("v", P("T"))])]
+    for k, (tr, an, conc) in enumerate([("Cw1", "ItemT", P("String")), ("Whitelist", "Param", P("u64"))]):
+        it = L2Iface(mod="i%d" % k, trait=tr)
+        it.assoc = [(an, conc)]
+        it.methods = [L2Method("q_%d" % k, "query", [Arg("item", PP("Self", an))]),
+                      L2Method("qq_%d" % k, "query", [Arg("items", P("Vec", PP("Self", an)))], ret="arg0"),
+                      L2Method("e_%d" % k, "exec", [Arg("item", PP("Self", an)), Arg("n", P("u32"))]),
+                      L2Method("s_%d" % k, "sudo", [Arg("item", P("Option", PP("Self", an)))])]
+        p.ifaces.append(it)
+    return p
 
 
 def run_l2(run, pid, rng, thorough, flags):
@@ -221,6 +273,8 @@ def run_l2(run, pid, rng, thorough, flags):
                            c03=flags.get("c03", False), c04=flags.get("c04", False))
         if flags.get("tables", False):
             s.check_tables()
+        if flags.get("schemas", False):
+            s.check_schemas()
     finally:
         c.cleanup()
     return s
